@@ -42,6 +42,8 @@ ISel(salt, n) == IF Full THEN IntKindIdx ELSE { ((Seed * 3 + salt * 7 + j * 3) %
 \* one of 1..n, seeded
 Pick(a, b, n) == ((Seed * 31 + a * 7 + b * 13) % n) + 1
 MinOf(S) == CHOOSE x \in S : \A y \in S : x <= y
+\* shapes that do not depend on the numeric kind carry the fixed kind index 5 ("int"), so that their identity does not vary with the seed
+KindFree(fam, shapes) == { [fam |-> fam, k |-> 5, s |-> sh] : sh \in shapes }
 Thin(h, d) == Full \/ (h + Seed) % d = 0
 \* tier "t" takes a seeded quarter of the (very large) family "acc"; tier "all" (used to enumerate known findings) takes everything
 ThinT(h, dq, dt) == Tier = "all" \/ (h + Seed) % (IF Tier = "t" THEN dt ELSE dq) = 0
@@ -202,7 +204,7 @@ FamClos(p) ==
                    <<SRet(<<FnE(<<Par("b", T(k))>>, <<T(k)>>, <<SAsg(V("a"), Bin("+", V("a"), V("b"))), SRet(<<V("a")>>)>>)>>)>>)>>,
               <<SDef("ad", Call(V("adder"), <<TL(k, 4)>>)), SPr(<<PV(Call(V("ad"), <<TI(k, 20)>>)), PV(Call(V("ad"), <<TI(k, 20)>>))>>),
                 SDef("r", Call(V("ad"), <<TI(k, 1)>>)), PrA("r", "r")>>)
-ClosIdx == { p \in [fam : {"clos"}, k : KSel(8, 3), s : 1..6] : p.s # 2 \/ p.k = MinOf(KSel(8, 3)) }
+ClosIdx == [fam : {"clos"}, k : KSel(8, 3), s : {1, 3, 4, 5, 6}] \cup KindFree("clos", {2})
 
 \* ------------------------------------------------------------------ family "slice"
 FamSlice(p) ==
@@ -226,7 +228,7 @@ FamSlice(p) ==
                           SFor3("", SDef("i", Lit(0)), Bin("<", V("i"), LenE(V("s"))), SInc(V("i"), "+"),
                                 <<SAsg(Idx(V("s"), V("i")), Bin("*", Idx(V("s"), V("i")), Lit(2))), SOpa(V("t"), "+", Idx(V("s"), V("i")))>>),
                           PrA("t", "t"), SPr(<<PV(Idx(V("s"), Lit(1)))>>)>>)
-SliceIdx == { p \in [fam : {"slice"}, k : KSel(9, 3), s : 1..7] : p.s # 6 \/ p.k = MinOf(KSel(9, 3)) }
+SliceIdx == [fam : {"slice"}, k : KSel(9, 3), s : {1, 2, 3, 4, 5, 7}] \cup KindFree("slice", {6})
 
 \* ------------------------------------------------------------------ family "map"
 FamMap(p) ==
@@ -247,7 +249,7 @@ FamMap(p) ==
                                   SIf(V("ok"), <<SAsg(Idx(V("m"), V("w")), Bin("+", V("c"), Lit(1)))>>, <<SAsg(Idx(V("m"), V("w")), Lit(1))>>)>>),
                           SDef("a", Idx(V("m"), Str("a"))), SDef("b", Idx(V("m"), Str("b"))),
                           SPr(<<PV(V("a")), PT(V("a")), PV(V("b")), PV(LenE(V("m")))>>)>>)
-MapIdx == { p \in [fam : {"map"}, k : KSel(10, 2), s : 1..3] : p.s # 2 \/ p.k = MinOf(KSel(10, 2)) }
+MapIdx == [fam : {"map"}, k : KSel(10, 2), s : {1, 3}] \cup KindFree("map", {2})
 
 \* ------------------------------------------------------------------ family "struct": structs and methods
 FamStruct(p) ==
@@ -301,7 +303,7 @@ FamSwitch(p) ==
         [] OTHER   -> P0(<<SVar("x", T(k), TL(k, 4)),                                                         \* typed tag against constants
                           SSw(V("x"), <<Case(<<Lit(1), Lit(2)>>, <<SPr(<<PL("small")>>)>>), Case(<<Lit(100)>>, <<SPr(<<PL("hundred")>>)>>)>>, <<SPr(<<PL("other")>>)>>),
                           SSw(Bin("+", V("x"), Lit(1)), <<Case(<<Lit(100)>>, <<SPr(<<PL("hundred")>>)>>)>>, <<SPr(<<PL("other"), PV(Bin("+", V("x"), Lit(1)))>>)>>)>>)
-SwitchIdx == { p \in [fam : {"switch"}, k : KSel(12, 3), s : 1..6] : p.s \in {3, 6} \/ p.k = MinOf(KSel(12, 3)) }
+SwitchIdx == [fam : {"switch"}, k : KSel(12, 3), s : {3, 6}] \cup KindFree("switch", {1, 2, 4, 5})
 
 \* ------------------------------------------------------------------ family "loops": nested loops with plain / labelled break and continue
 \* p: a action (1 break 2 continue 3 break outer 4 continue outer), i0 j0 site, fo fi loop forms (1 for3 2 forc 3 forr)
@@ -334,19 +336,19 @@ FamMulti(p) ==
                               <<SIf1(Bin(">", V("n"), Lit(50)), <<SRet(<<V("n"), Str("big"), Bool(TRUE)>>)>>), SRet(<<Bin("*", V("n"), Lit(2)), Str("small"), Bool(FALSE)>>)>>)>>,
                          <<SDef2(<<"v", "s", "ok">>, Call(V("info"), <<TL(k, 4)>>)), SPr(<<PV(V("v")), PV(V("s")), PV(V("ok"))>>),
                            SDef2(<<"w", "_", "ok2">>, Call(V("info"), <<TL(k, 1)>>)), SPr(<<PV(V("w")), PT(V("w")), PV(V("ok2"))>>)>>)
+        [] p.s = 5 -> PF(<<FnVar("join", <<Par("sep", TStr), Par("xs", TSlice(TStr))>>, <<TStr>>,
+                              <<SDef("t", Str("")), SForR("", "i", "x", V("xs"), <<SIf1(Bin(">", V("i"), Lit(0)), <<SOpa(V("t"), "+", V("sep"))>>), SOpa(V("t"), "+", V("x"))>>), SRet(<<V("t")>>)>>)>>,
+                         <<SPr(<<PL("j"), PV(Call(V("join"), <<Str("-")>>)), PV(Call(V("join"), <<Str("-"), Str("a")>>)), PV(Call(V("join"), <<Str("+"), Str("a"), Str("b"), Str("go")>>))>>)>>)
         [] p.s = 6 -> PF(<<Fn("say", <<Par("s", TStr)>>, <<TInt>>, <<SPr(<<PL("say"), PV(V("s"))>>), SRet(<<LenE(V("s"))>>)>>),      \* operands in the order written
                            Fn("two", <<>>, <<TInt, TInt>>, <<SRet(<<Call(V("say"), <<Str("a")>>), Call(V("say"), <<Str("ab")>>)>>)>>),
                            Fn("add", <<Par("a", TInt), Par("b", TInt)>>, <<TInt>>, <<SRet(<<Bin("+", V("a"), V("b"))>>)>>)>>,
                          <<SDef2(<<"x", "y">>, Call(V("two"), <<>>)), SPr(<<PV(V("x")), PV(V("y"))>>),
                            SPr(<<PV(Call(V("add"), <<Call(V("say"), <<Str("b")>>), Call(V("say"), <<Str("go")>>)>>))>>),
                            SPr(<<PV(Bin("-", Call(V("say"), <<Str("x")>>), Call(V("say"), <<Str("xy")>>)))>>)>>)
-        [] p.s = 7 -> PF(<<Fn("say", <<Par("s", TStr)>>, <<TInt>>, <<SPr(<<PL("say"), PV(V("s"))>>), SRet(<<LenE(V("s"))>>)>>)>>,               \* parallel definition / assignment with calls
+        [] OTHER   -> PF(<<Fn("say", <<Par("s", TStr)>>, <<TInt>>, <<SPr(<<PL("say"), PV(V("s"))>>), SRet(<<LenE(V("s"))>>)>>)>>,               \* parallel definition / assignment with calls
                          <<SDefP(<<"a", "b">>, <<Call(V("say"), <<Str("a")>>), Call(V("say"), <<Str("ab")>>)>>), SPr(<<PV(V("a")), PV(V("b"))>>),
                            SAsg2(<<V("a"), V("b")>>, <<Call(V("say"), <<Str("abc")>>), V("a")>>), SPr(<<PV(V("a")), PV(V("b"))>>)>>)
-        [] OTHER   -> PF(<<FnVar("join", <<Par("sep", TStr), Par("xs", TSlice(TStr))>>, <<TStr>>,
-                              <<SDef("t", Str("")), SForR("", "i", "x", V("xs"), <<SIf1(Bin(">", V("i"), Lit(0)), <<SOpa(V("t"), "+", V("sep"))>>), SOpa(V("t"), "+", V("x"))>>), SRet(<<V("t")>>)>>)>>,
-                         <<SPr(<<PL("j"), PV(Call(V("join"), <<Str("-")>>)), PV(Call(V("join"), <<Str("-"), Str("a")>>)), PV(Call(V("join"), <<Str("+"), Str("a"), Str("b"), Str("go")>>))>>)>>)
-MultiIdx == { p \in [fam : {"multi"}, k : KSel(13, 3), s : 1..8] : p.s \in 1..4 \/ p.k = MinOf(KSel(13, 3)) }
+MultiIdx == [fam : {"multi"}, k : KSel(13, 3), s : 1..4] \cup KindFree("multi", {5, 6, 7})
 
 \* ------------------------------------------------------------------ family "defer": defer / panic / recover
 \* p: s shape, d depth of the panic (1..3), r level that recovers (0 none, 1..d)
